@@ -325,9 +325,9 @@ func (s *SencBox) Size() uint64 {
 func (s *SencBox) calcSize() uint64 {
 	totalSize := uint64(boxHeaderSize + 8)
 	perSampleIVSize := uint64(s.GetPerSampleIVSize())
-	for i := uint32(0); i < s.SampleCount; i++ {
-		totalSize += perSampleIVSize
-		if s.Flags&UseSubSampleEncryption != 0 {
+	totalSize += perSampleIVSize * uint64(s.SampleCount)
+	if s.Flags&UseSubSampleEncryption != 0 {
+		for i := 0; i < len(s.SubSamples) && i < int(s.SampleCount); i++ {
 			totalSize += 2 + 6*uint64(len(s.SubSamples[i]))
 		}
 	}
